@@ -1023,6 +1023,26 @@ pub(super) fn check_synced(w: &World, s: &Session<'_>, ok: bool) {
             }
         }
     }
+    // TTL policy (TtlExtensionTrigger / ttl_extension_threshold), asserted where the documentation is
+    // unambiguous: a session known under its id, no store race. FRESH_TTL = 100 s, threshold 0.8 = 80 s.
+    if w.sh.idk == IdK::Existing && !w.raced {
+        let rec = &db.recs[cur];
+        let on_loads = w.cfg.state.extend_ttl == TtlExtensionTrigger::OnStateLoadsAndChanges;
+        let thr = w.cfg.state.ttl_extension_threshold.is_some();
+        match w.sh.ssk {
+            // "The TTL of the current session is refreshed on every request where the server modified the session state"
+            SsK::Changed => assert!(!rec.present || rec.ttl == FRESH_TTL, "a modified state was persisted without a fresh ttl"),
+            SsK::Unchanged => {
+                if on_loads && (!thr || w.sh.rem_ttl < 80) {
+                    assert!(rec.ttl == FRESH_TTL, "OnStateLoadsAndChanges: the state was loaded (below the threshold) but its ttl was not refreshed");
+                }
+                if (on_loads && thr && w.sh.rem_ttl > 80) || (!on_loads && !w.sh.client_updated) {
+                    assert!(rec.ttl == db0[cur].ttl, "the ttl was refreshed although the trigger / threshold says it must not be");
+                }
+            }
+            _ => {}
+        }
+    }
     // the in-memory state after sync: refines the synchronised model, INV again
     let sh2 = shape_of(s);
     let a = abs(&sh2);
